@@ -164,25 +164,26 @@ def rule_first_flag(ck, units, floor=5):
                 c = unwrap(n['c'])
                 if c is None or c['k'] != 'ref' or f.decl(c['d']).get('k') != 'local':
                     continue
-                F = c['d']
-                offs = [m for m in walk(n['t']) if m['k'] == 'bin' and m['op'] == '=' and unwrap(m['x'])['k'] == 'ref' and unwrap(m['x'])['d'] == F
+                F = f.canon(c['d'])
+                offs = [m for m in walk(n['t']) if m['k'] == 'bin' and m['op'] == '=' and unwrap(m['x'])['k'] == 'ref' and f.canon(unwrap(m['x'])['d']) == F
                         and unwrap(m['y'])['k'] == 'lit' and unwrap(m['y']).get('t') == 'bool']
                 if len(offs) != 1:
                     continue
                 off = unwrap(offs[0]['y'])['v']
                 tas = [m for m in walk(n['t']) if m['k'] == 'bin' and m['op'] == '=' and m is not offs[0] and unwrap(m['x'])['k'] == 'ref']
                 eas = [m for m in walk(n['e']) if m['k'] == 'bin' and m['op'] == '=' and unwrap(m['x'])['k'] == 'ref']
-                if len(tas) != 1 or len(eas) != 1 or unwrap(tas[0]['x'])['d'] != unwrap(eas[0]['x'])['d']:
+                if len(tas) != 1 or len(eas) != 1 or f.canon(unwrap(tas[0]['x'])['d']) != f.canon(unwrap(eas[0]['x'])['d']):
                     continue
-                ACC = unwrap(tas[0]['x'])['d']
-                if not any(x['k'] == 'ref' and x['d'] == ACC for x in walk(eas[0]['y'])):
+                ACC = f.canon(unwrap(tas[0]['x'])['d'])
+                if not any(x['k'] == 'ref' and f.canon(x['d']) == ACC for x in walk(eas[0]['y'])):
                     continue
                 k += 1
                 inside = {x['i'] for x in walk(n)}
                 loops = [a for a in f.ancestors(n) if a['k'] in ('for', 'while', 'do', 'rfor')]
-                consumers = [x for x in f.nodes.values() if x['k'] == 'ref' and x['d'] == ACC and x['i'] not in inside]
+                consumers = [x for x in f.nodes.values() if x['k'] == 'ref' and f.canon(x['d']) == ACC and x['i'] not in inside
+                             and not any(a_['k'] == 'decl' and a_.get('v') and any(f.decl(v_['d']).get('inl_param') for v_ in a_['v']) for a_ in f.ancestors(x))]
                 # plain (re)definitions of ACC are not consumers
-                defs_ = {unwrap(m['x'])['i'] for m in f.nodes.values() if m['k'] == 'bin' and m['op'] == '=' and unwrap(m['x'])['k'] == 'ref' and unwrap(m['x'])['d'] == ACC}
+                defs_ = {unwrap(m['x'])['i'] for m in f.nodes.values() if m['k'] == 'bin' and m['op'] == '=' and unwrap(m['x'])['k'] == 'ref' and f.canon(unwrap(m['x'])['d']) == ACC}
                 consumers = [x for x in consumers if x['i'] not in defs_]
                 over = [L for L in loops if not any(x['i'] in {y['i'] for y in walk(L)} for x in consumers)]
                 arm = 'true' if off == 'false' else 'false'
@@ -190,9 +191,9 @@ def rule_first_flag(ck, units, floor=5):
                 for m in f.nodes.values():
                     if m['k'] == 'decl':
                         for v in m['v']:
-                            if v['d'] == F and v.get('init') is not None and unwrap(v['init'])['k'] == 'lit' and unwrap(v['init'])['v'] == arm:
+                            if f.canon(v['d']) == F and v['d'] == F and v.get('init') is not None and unwrap(v['init'])['k'] == 'lit' and unwrap(v['init'])['v'] == arm:
                                 arms.append(m)
-                    elif m['k'] == 'bin' and m['op'] == '=' and unwrap(m['x'])['k'] == 'ref' and unwrap(m['x'])['d'] == F and unwrap(m['y'])['k'] == 'lit' \
+                    elif m['k'] == 'bin' and m['op'] == '=' and unwrap(m['x'])['k'] == 'ref' and f.canon(unwrap(m['x'])['d']) == F and unwrap(m['y'])['k'] == 'lit' \
                             and unwrap(m['y'])['v'] == arm:
                         arms.append(m)
                 bad = []
